@@ -48,6 +48,10 @@ func (i *syntaxChildMultiIdentifier) retrieveMap(
 			if _, ok = srcMap[singleIdentifier.identifier]; !ok {
 				continue
 			}
+		} else if len(srcMap) == 0 {
+			// A wildcard matches nothing in an empty object, just like a missing name:
+			// the failing step is this selector, not its inner wildcard.
+			continue
 		}
 
 		if err := identifier.retrieve(root, srcMap, container); err != nil {
